@@ -99,7 +99,7 @@ CHECKS["C02"] = {
             "spelled by ciphertext bytes; packet numbers are concrete sequences here (C16 covers reconstruction over the full range). Bounds in the evidence.",
 }
 CHECKS["C07"] = {
-    "technique": "symbolic execution of the TLS and QUIC pipelines with symbolic MAC/IP addresses, client port and one symbolic capture time per input packet; microsecond round trip decided in a relative-error real-arithmetic model of the timestamp expression lifted from the source",
+    "technique": "symbolic execution of the TLS and QUIC pipelines with symbolic MAC/IP addresses, client port and one symbolic capture time per input packet; microsecond round trip decided in a relative-error real-arithmetic model of the timestamp computation recorded from an execution of the real reader on recording variables",
     "text": "With all addresses, the client port and every capture time symbolic, and records cut into small segments, z3 shows that "
             "every exported TLS packet is oriented sender -> receiver with the connection's MAC/IP/ports, carries the time of an "
             "input packet that overlapped the same record, and the synthetic handshake the first record's time; for QUIC each "
@@ -136,7 +136,7 @@ CHECKS["C18"] = {
     "note": TRUST + "Sets are replaced by a class whose iteration order is solver-chosen among identity, reversal and rotations; reader/writer/file system are stubs; models as in C01/C02.",
 }
 CHECKS["C12"] = {
-    "technique": "symbolic execution of dpkt_dsb.Reader on a block-level model of the pcapng file with symbolic block fields; tick scaling decided in a relative-error real-arithmetic model of the expression lifted from the source; main.run -l wiring; concrete container variants through the real program",
+    "technique": "symbolic execution of dpkt_dsb.Reader on a block-level model of the pcapng file with symbolic block fields; tick scaling decided in a relative-error real-arithmetic model of the computation recorded from the real reader; main.run -l wiring; concrete container variants through the real program",
     "text": "For both byte orders, EPB and PB, a foreign block of any type at every position and DSBs, with tick words, if_tsresol (all 256 "
             "values) and if_tsoffset symbolic, z3 shows that the reader yields exactly the packet and DSB blocks in order with untouched "
             "payloads, uses the classes and formats of the file's byte order and computes if_tsoffset + ticks / 10^k or 2^k; that an "
